@@ -447,6 +447,11 @@ pub mod inner {
             assert!(r <= w, "range right ({r}) > width ({w})");
             assert!(b <= h, "range bottom ({b}) > height ({h})");
 
+            // An empty rect has no cells. Its corner may lie past the end of
+            // the data (l == width or t == height), so do not index with it
+            if l == r || t == b {
+                return ((r - l, b - t), 0..0);
+            }
             // (l, t) is now guaranteed to be in bounds
             let start = self.to_index(l, t);
             // Slice end is the end of the last row
@@ -480,12 +485,16 @@ pub mod inner {
             assert!(w <= stride, "width ({w}) > stride ({stride})");
 
             let len = data.len();
-            assert!(
-                h <= 1 || stride as usize <= len,
-                "stride ({stride}) > data length ({len})"
-            );
-            assert!(h as usize <= len, "height ({h}) > data length ({len})");
-            if h > 0 {
+            // An empty view has no cells and needs no data
+            if w > 0 && h > 0 {
+                assert!(
+                    h <= 1 || stride as usize <= len,
+                    "stride ({stride}) > data length ({len})"
+                );
+                assert!(
+                    h as usize <= len,
+                    "height ({h}) > data length ({len})"
+                );
                 let size = (h - 1) * stride + w;
                 assert!(
                     size as usize <= len,
